@@ -521,6 +521,19 @@ def judge_c10(ctx, idx, op, impl, mi, ms, reason):
 
 
 def judge_c13(ctx, idx, op, impl, mi, ms, reason):
+    if op[0] == "tlsq":
+        # a sequence of cells in one fresh process: every cell is judged as a cell of the table
+        cells = op[1].split(";")
+        ia, ma, sa = impl.split(" ; "), mi.split(" ; "), ms.split(";")
+        ctx.count("sequences")
+        if len(ia) != len(cells) or len(ma) != len(cells) or len(sa) != len(cells):
+            return [Finding("property", idx, "a sequence of connections in one process did not complete (%s)" % impl[:60], expected=mi, observed=impl, name="C13_table")]
+        f = []
+        for k, c in enumerate(cells):
+            for x in judge_c13(ctx, idx, ["tls"] + c.split(","), ia[k], ma[k], sa[k], reason):
+                x.msg = "connection %d of a sequence in one process (%s): %s" % (k + 1, c, x.msg)
+                f.append(x)
+        return f
     if op[0] != "tls":
         return same(ctx, idx, op, impl, mi, "set-up")
     if impl.startswith("skipped"):
@@ -773,7 +786,7 @@ PROPS = {
     "C08": dict(family="c08", judge=judge_c08, probes=("serve",), expect_keys=["serve_good", "serve_herr", "serve_unencodable", "serve_malformed_kind0", "serve_malformed_kind1", "serve_malformed_kind2", "serve_malformed_kind3"], title="Server answers each request exactly once, in order, unmodified"),
     "C09": dict(family="c09", judge=judge_c08, probes=("serve",), expect_keys=["serve_readcut", "serve_writecut"], title="Server survives connection loss at any byte offset"),
     "C10": dict(family="c10", judge=judge_c10, probes=("lsn",), title="One misbehaving connection cannot disturb the others"),
-    "C13": dict(family="c13", judge=judge_c13, probes=("tls",), title="TLS settings are honoured exactly"),
+    "C13": dict(family="c13", judge=judge_c13, probes=("tls", "tlsq"), title="TLS settings are honoured exactly"),
     "C11": dict(family="c11", judge=judge_cli, probes=("cli", "ctcp"), model_input=cli_model_input, title="Client delivers each answer to the request it belongs to"),
     "C12": dict(family="c12", judge=judge_cli, probes=("cli", "ctcp"), expect_keys=["ev_stop", "ev_refused", "ev_rm", "ev_dl", "future_err", "future_got", "future_pending", "late_err", "tcp_scenarios"], model_input=cli_model_input, title="Every response future eventually completes"),
     "C14": dict(family="c14", judge=judge_c14, probes=("dget", "dbyname", "dapp", "dcmd"), title="Dictionary lookups reflect exactly what was loaded, latest wins"),
